@@ -1,0 +1,38 @@
+//go:build verif
+
+// Verification contracts (comments only; compiled only with -tags verif).
+// Checked by /verif/bin/govc; see /verif/DESIGN.md.
+
+package standard
+
+//@ type Service
+//@   guarded_by executionConfigMu: executionConfig
+//@
+//@ spec func fetchedCfg() blockrelay.ExecutionConfigurator
+//@ spec func fetchedErr() error
+//@
+//@ func (*Service).ProposerConfig
+//@   requires s != nil && unheld(s.executionConfigMu)
+//@   ensures s.executionConfig == nil ==> result1 == nil && result0 != nil && result0.FeeRecipient == s.fallbackFeeRecipient && len(result0.Relays) == 0
+//@   ensures s.executionConfig == old(s.executionConfig)
+//@   modifies nothing
+//@
+//@ func (*Service).obtainExecutionConfig
+//@   requires s != nil
+//@   modifies nothing
+//@
+//@ func (*Service).fetchExecutionConfig
+//@   requires s != nil && s.chainTime != nil && s.validatingAccountsProvider != nil && unheld(s.executionConfigMu)
+//@   assumes call obtainExecutionConfig#1 (cfg, err): cfg == fetchedCfg() && err == fetchedErr()
+//@   ensures calls(obtainExecutionConfig) > 0 && fetchedErr() == nil && fetchedCfg() != nil ==> s.executionConfig == fetchedCfg()
+//@   ensures !(calls(obtainExecutionConfig) > 0 && fetchedErr() == nil && fetchedCfg() != nil) ==> s.executionConfig == old(s.executionConfig)
+//@   modifies s.executionConfig
+//@
+//@ func (*Service).auctionBlock
+//@   requires s != nil && s.builderBidProvider != nil && s.builderBidsCache != nil && unheld(s.executionConfigMu) && unheld(s.builderBidsCacheMu)
+//@   assumes call BuilderBid#1 (res, err): err == nil ==> res != nil
+//@   ensures result1 != nil ==> result0 == nil
+//@
+//@ func (*Service).AuctionBlock
+//@   requires s != nil && s.accountsProvider != nil && s.builderBidProvider != nil && s.builderBidsCache != nil && unheld(s.executionConfigMu) && unheld(s.builderBidsCacheMu)
+//@   assumes call BuilderBid#1 (res, err): err == nil ==> res != nil
